@@ -121,5 +121,7 @@ impl Clone for Stream {
 //@endfn
 //@endimpl
 
+// ---- code this unit's claims rely on that is outside the verifier: pinned to the reference tree (rule ix of ./check) ----
+//@watch src/util/refined_tcp_stream.rs "impl Stream" shutdown
 } // verus!
 fn main() {}
